@@ -6,7 +6,13 @@ def run(tier):
     sz = J.sizes(tier, True)
     jobs = [("roundtrip:N=%d,T=%d" % s, J.job_roundtrip, {"N": s[0], "T": s[1]}) for s in sz]
     jobs += [("converse:N=%d,T=%d" % s, J.job_roundtrip_rev, {"N": s[0], "T": s[1]}) for s in sz[:2]]
-    return J.run_property("C03", tier, jobs, {"roundtrip": "roundtrip", "converse": "make"},
+    # beyond the table (zones extended by a footer) the two directions are decided separately: each reduces to the table's answer for
+    # the point moved back by k cycles; their composition additionally needs the generated table to be periodic (C01's jobs)
+    from . import tz_ext
+    jobs += [("ext-BreakTime:N=%d,T=%d" % s, tz_ext.job_breaktime_ext, {"N": s[0], "T": s[1]}) for s in ((2, 2), (3, 2))]
+    jobs += [("ext-MakeTime-beyond:N=2,T=2", tz_ext.job_maketime_ext, {"N": 2, "T": 2, "mode": "beyond"})]
+    return J.run_property("C03", tier, jobs, {"roundtrip": "roundtrip", "converse": "make", "ext-BreakTime": "roundtrip", "ext-MakeTime": "make"},
         "SMT over every instant in [min+1day, max-1day] and every well-formed table of the stated sizes; both directions run the real code, not contracts.",
-        ["tables N x T in %s" % sz, "t in [time_point::min()+1day, time_point::max()-1day]; converse: non-saturated UNIQUE/REPEATED answers"])
+        ["tables N x T in %s" % sz, "t in [time_point::min()+1day, time_point::max()-1day]; converse: non-saturated UNIQUE/REPEATED answers",
+         "extended tables 2x2, 3x2: each direction's reduction through the 400-year shift"], ext=True)
 if __name__ == "__main__": sys.exit(run(sys.argv[1] if len(sys.argv) > 1 else "quick"))
